@@ -37,6 +37,8 @@ class Check(RecordingCheck):
 
     # ------------------------------------------------------------------ oracle (a): retried operations
     def oracle_idempotence(self, work):
+        """Retried record_call_node on a real backend: one transient OperationalError at every commit attempt and at
+        every other statement (SELECT / INSERT / UPDATE ...) of the operation; tables vs the fault-free run."""
         world = World()
         leaf = Tree(2, [110], 120)
         scen = [("existing-values", Tree(1, [110], 120, [leaf]), [1, 2]),
@@ -44,37 +46,46 @@ class Check(RecordingCheck):
                 ("unrecorded-child", Tree(1, [111, 110], 121, [leaf, Tree(6, [], 122)]), [1, 2, 6]),
                 ("no-arguments", Tree(1, [], 120, []), [1])]
         n = 0
+        tables = ("vals", "nodes", "edges", "args", "subs")
         for R in (1, 3):
             for label, tree, sub in scen:
                 base = [("new",)] + [("val", i, []) for i in world.tasks] + [("rcn", leaf, [2], [])]
-                outs0, d0, b = rl.run_script(world, base + [("rcn", tree, sub, [])], R, str(work), "i")
+                outs0, d0, b = rl.run_script(world, base + [("rcn", tree, sub, [], None, True)], R, str(work), "i")
                 rl.close_backend(b)
                 ref = World.canon_dump(d0)
-                for k in range(0, 8):
-                    plan = [FOK] * k + [FFAIL]
-                    outs, d, b = rl.run_script(world, base + [("rcn", tree, sub, plan)], R, str(work), "i")
-                    site = None
+                stmts = d0["qlog"]
+                faults = [("commit", k, [FOK] * k + [FFAIL], None, "record_call_node") for k in range(0, 8)]
+                if R == 3:
+                    faults += [("query", k, [], k, st.split(">")[0]) for k, kind, st in stmts]
+                for stmt_kind, k, plan, qfail, op in faults:
+                    outs, d, b = rl.run_script(world, base + [("rcn", tree, sub, plan, qfail)], R, str(work), "i")
                     rl.close_backend(b)
                     n += 1
                     got = World.canon_dump(d)
-                    self.stat("idempotence_outcome", "returned" if outs[-1] == 0 else "died")
+                    self.stat("idempotence_outcome", f"{stmt_kind}:" + ("returned" if outs[-1] == 0 else "died"))
+                    what_stmt = (f"commit attempt {k}" if stmt_kind == "commit" else
+                                 f"statement {k} ({stmts[k][1]} in {stmts[k][2]})")
+                    replay = {"kind": "idem", "scenario": label, "plan": plan, "statement_index": qfail, "R": R}
                     if d["fk"] or d["unknown"]:
-                        self.findings.append(Finding(f"fk-violation:retry:{label}:fault@{k}", "foreign key violation after a retried operation",
-                                                     {"kind": "idem", "scenario": label, "plan": plan, "R": R, "fk": repr(d["fk"])[:300]}))
+                        self.findings.append(Finding(
+                            f"transient-error:{stmt_kind}@{op}:fk-violation", f"foreign key violation after record_call_node ({label}, "
+                            f"db_retries={R}) with one OperationalError at its {what_stmt}: {d['fk']!r}"[:400], replay))
                     if outs[-1] == 0 and got != ref:
-                        lost = [t for t in ("vals", "nodes", "edges", "args", "subs") if set(ref[t]) - set(got[t])]
-                        dup = [t for t in ("vals", "nodes", "edges", "args", "subs") if len(got[t]) != len(set(got[t]))]
-                        key = "transient-error@record_call_node:retry-changes-records:" + ("dup" if dup else "lost")
+                        lost = [t for t in tables if set(ref[t]) - set(got[t])]
+                        dup = [t for t in tables if len(got[t]) != len(set(got[t]))]
+                        key = f"transient-error:{stmt_kind}@{op}:retry-changes-records:" + \
+                              (f"dup={'+'.join(dup)}" if dup else f"lost={'+'.join(lost)}")
                         self.findings.append(Finding(
                             key, f"record_call_node ({label}, db_retries={R}) returned normally after one OperationalError at its "
-                                 f"commit attempt {k} but the committed tables differ from the fault-free run: lost {lost}, duplicated {dup}",
-                            {"kind": "idem", "scenario": label, "plan": plan, "R": R, "lost": lost}))
+                                 f"{what_stmt} but the committed tables differ from the fault-free run: lost {lost}, duplicated {dup}",
+                            replay))
         return n
 
     # ------------------------------------------------------------------ oracle (b): end to end
     def oracle_e2e(self, work):
         n = 0
-        plan_names = [("two_args", 1), ("chain", 0)] if self.tier == "quick" else [(w, 1) for w in C22_WORKLOADS]
+        plan_names = [("two_args", 1), ("chain", 0), ("noprov0", -1)] if self.tier == "quick" else \
+            [(w, 1) for w in C22_WORKLOADS + rl.NOPROV_WORKLOADS]
         for name, stride in plan_names:
             db = rl.fresh_db(str(work), "probe.db")
             _, _, log, s = rl.sched_run(name, rl.LEAF_V1[name], db)
@@ -87,7 +98,8 @@ class Check(RecordingCheck):
                 seen_sites[st] = occ[i] + 1
             rcn = [i for i, _, site in log if "record_call_node" in site]
             # stride 0: only (every second of) the commits inside record_call_node
-            chosen = sorted(set(idx[::stride]) | set(rcn)) if stride else rcn[::2]
+            # stride -1: every commit inside record_call_node
+            chosen = sorted(set(idx[::stride]) | set(rcn)) if stride > 0 else (rcn if stride < 0 else rcn[::2])
             # the history without any fault: what it already gets wrong is not charged to a fault position
             base = self.e2e(name, [], work, f"e{n}")
             n += 1
@@ -97,32 +109,52 @@ class Check(RecordingCheck):
                         "no-fault:stale-result", f"workload {name} without any fault: the re-run ({'edited leaf' if which == 'edited' else 'same program'}) "
                         f"gives {base[which]!r}, a run on an empty backend {base[exp]!r} (C03: CSE-replayed child)",
                         {"kind": "e2e", "workload": name, "plan": []}))
-            for i in chosen:
-                for fate in (FFAIL, FCRASH):
-                    o = self.e2e(name, [FOK] * i + [fate], work, f"e{n}")
+            # statements other than commits (SELECT / INSERT / UPDATE / PRAGMA issued inside backend operations)
+            qchosen = []
+            if name == "two_args":
+                qdb = rl.fresh_db(str(work), "qprobe.db")
+                _, _, _, qs = rl.sched_run(name, rl.LEAF_V1[name], qdb, qtrack=True)
+                qlog = [x for x in qs.rv_fates.qlog if x[2] != "?"]
+                rl.close_backend(qs.backend)
+                os.unlink(qdb)
+                if self.tier == "quick":
+                    direct = [x[0] for x in qlog if x[2] == "record_call_node" and x[1] == "SELECT"]
+                    qchosen = direct[:6] + [x[0] for x in qlog][5::max(1, len(qlog) // 6)][:6]
+                else:
+                    qchosen = [x[0] for x in qlog][::2]
+            faults = [("commit", i, fate) for i in chosen for fate in (FFAIL, FCRASH)] + \
+                     [("query", q, FFAIL) for q in sorted(set(qchosen))]
+            for stmt, i, fate in faults:
+                if True:
+                    if stmt == "commit":
+                        o = self.e2e(name, [FOK] * i + [fate], work, f"e{n}")
+                        replay = {"kind": "e2e", "workload": name, "plan": [FOK] * i + [fate]}
+                    else:
+                        o = self.e2e(name, [], work, f"e{n}", qfail=i)
+                        replay = {"kind": "e2e", "workload": name, "plan": [], "statement_index": i}
                     n += 1
                     kind = "transient-error" if fate == FFAIL else "crash"
-                    self.stat("e2e_fault_site", f"{kind}@{o['site']}")
+                    self.stat("e2e_fault_site", f"{kind}:{stmt}@{o['site']}")
                     self.stat("e2e_run1", o["run1"][0])
-                    replay = {"kind": "e2e", "workload": name, "plan": [FOK] * i + [fate]}
                     path = o["site"] or "?"
-                    op = path.split(">")[0]                  # the outermost backend operation of the faulted commit
-                    where = f"commit {i} of workload {name} ({path}, occurrence {occ[i]} of this call stack)"
+                    op = path.split(">")[0]                  # the outermost backend operation of the faulted statement
+                    where = (f"commit {i} of workload {name} ({path}, occurrence {occ[i]} of this call stack)" if stmt == "commit"
+                             else f"statement {i} of workload {name} ({path})")
                     replay["fault_point"] = f"{kind} at {where}"
                     if o["fk"]:
                         tables = sorted({f"{r[0]}->{r[2]}" for r in o["fk"]})
                         self.findings.append(Finding(
-                            f"{kind}@{op}:fk-violation", f"PRAGMA foreign_key_check reports {len(o['fk'])} row(s) "
+                            f"{kind}:{stmt}@{op}:fk-violation", f"PRAGMA foreign_key_check reports {len(o['fk'])} row(s) "
                             f"({', '.join(tables)}) after a {kind} at {where} and two recovery runs", replay))
                     if fate == FFAIL and o["run1"][0] == "died":
                         self.findings.append(Finding(
-                            f"{kind}@{op}:run-died:{o['run1'][1]}", f"one transient OperationalError at {where} "
+                            f"{kind}:{stmt}@{op}:run-died:{o['run1'][1]}", f"one transient OperationalError at {where} "
                             f"is not survived although db_retries=3: the run dies with {o['run1'][1]}", replay))
                     for which, exp in (("same", "expected_same"), ("edited", "expected_edited")):
                         if o[which] != o[exp] and o[which] != base[which]:
                             outcome = f"recovery-died:{o[which][1]}" if o[which][0] == "died" else "stale-result"
                             self.findings.append(Finding(
-                                f"{kind}@{op}:{outcome}", f"after a {kind} at {where}, the recovery run "
+                                f"{kind}:{stmt}@{op}:{outcome}", f"after a {kind} at {where}, the recovery run "
                                 f"({'edited leaf' if which == 'edited' else 'same program'}) gives {o[which]!r}, a run on an empty backend {o[exp]!r}",
                                 replay))
         return n
